@@ -62,6 +62,11 @@ where
     fn poll_next(self: Pin<&mut Self>, cx: &mut Context<'_>) -> Poll<Option<Self::Item>> {
         let mut this = self.project();
 
+        // Merging zero streams yields an empty stream.
+        if N == 0 {
+            return Poll::Ready(None);
+        }
+
         let mut readiness = this.wakers.readiness();
         readiness.set_waker(cx.waker());
 
